@@ -185,6 +185,10 @@ func specLinesText(lines []string, i int) string {
 //@   invariant sofar [C09]: out[w] ++ bw.pending == old(out[w]) ++ spText && wfail == old(wfail)
 //@   invariant reported [C14]: wfail && !old(wfail) ==> errSent
 
+// stageSpread / stageWriter: the spreader stage that was started last, and the writer it was given (ghost, set by the
+// function that starts the stage - not by its goroutines -, so the caller can say which spreader a call went through)
+//@ ghost var stageSpread any
+//@ ghost var stageWriter any
 // encoded output: one encoder per run (C04), Encode once per root received
 //@ contract formattedSpreadPipelineSpec
 //@   requires nn: f != nil && f.encode != nil && f.formattedRoot != nil && ctx != nil
@@ -192,7 +196,9 @@ func specLinesText(lines []string, i int) string {
 //@   carries roots: grownChan($g)
 //@   carries errc: errChan
 //@   carries result0: errChan
-//@   modifies out, wfail, encTrace, encoders, errSent, ctxDoneSeen
+//@   modifies out, wfail, encTrace, encoders, errSent, ctxDoneSeen, stageSpread, stageWriter
+//@   ghostset stageSpread := f
+//@   ghostset stageWriter := w
 //@ applies formattedSpreadPipelineSpec to gtree.formattedSpreaderPipeline.spread[jsonNode], gtree.formattedSpreaderPipeline.spread[yamlNode], gtree.formattedSpreaderPipeline.spread[tomlNode]
 //@ contract formattedSpreadPipelineBody
 //@   requires nn: f != nil && f.encode != nil && f.formattedRoot != nil && ctx != nil
@@ -224,7 +230,9 @@ func specLinesText(lines []string, i int) string {
 //@   requires live [C02]: !ctxCancelled[ctx]
 //@   carries roots: grownChan($g)
 //@   carries result0: errChan
-//@   modifies out, wfail, encTrace, encoders, errSent, ctxDoneSeen
+//@   modifies out, wfail, encTrace, encoders, errSent, ctxDoneSeen, stageSpread, stageWriter
+//@   ghostset stageSpread := f
+//@   ghostset stageWriter := w
 
 // ---- mkdir stage (pipeline_tree_mkdirer.go): every root it receives comes from a validating grower (C07)
 //@ func gtree.defaultMkdirerPipeline.mkdir
